@@ -4,7 +4,7 @@ runs vcheck on it in a separate process and reports whether the expected propert
 usage: mutants.py [-p C06,C11] [-j 8] [id ...]      (no ids = whole catalogue)"""
 import subprocess, shutil, os, sys, json, argparse, tempfile, concurrent.futures as cf
 sys.path.insert(0, '/verif/mutants')
-from catalogue import M
+from catalogue import M, SILENT
 ENV = dict(os.environ, GOFLAGS='-mod=mod', GOPROXY='off', GOSUMDB='off', GOTOOLCHAIN='local', GOWORK='off')
 ap = argparse.ArgumentParser()
 ap.add_argument('-p', default='')
@@ -35,6 +35,8 @@ def run(m):
         st = {0: 'MISSED', 1: 'detected', 2: 'NOVERDICT'}.get(v.returncode, 'rc%d' % v.returncode)
         if v.returncode == 1 and prop not in hit:
             st = 'other-only'
+        if mid in SILENT:
+            st = 'silent-ok' if v.returncode == 0 else 'FALSE-ALARM'
         return (mid, prop, st, ','.join(hit) + ' ' + ','.join(rules), note)
     finally:
         shutil.rmtree(d, ignore_errors=True)
@@ -46,7 +48,7 @@ with cf.ThreadPoolExecutor(max_workers=a.j) as ex:
         res.append(r)
         print('%-34s %-4s %-10s %s   # %s' % r); sys.stdout.flush()
 shutil.rmtree(root, ignore_errors=True)
-det = sum(1 for r in res if r[2] == 'detected')
+det = sum(1 for r in res if r[2] in ('detected', 'silent-ok'))
 print('detected %d / %d   missed %d   other %d' % (det, len(res), sum(1 for r in res if r[2] == 'MISSED'), len(res) - det - sum(1 for r in res if r[2] == 'MISSED')))
 if a.json:
     json.dump(res, open(a.json, 'w'), indent=1)
